@@ -32,6 +32,16 @@ def _verif_order(site, xs):
     return xs
 
 
+_verif_lock_factory = None
+
+
+def _verif_make_lock(default):
+    """Let a verification harness substitute a cooperative lock."""
+    if _VERIF and _verif_lock_factory is not None:
+        return _verif_lock_factory()
+    return default
+
+
 class Named:
     """A named object.
 
